@@ -827,7 +827,13 @@ pub fn generate(prop: &str, seed: u64, idx: u64, tier: Tier) -> Plan {
             }
             if r.chance(30) {
                 // an orderly close after the traffic: its close_notify record is subject to the wire rules too
-                p.ops.push(Op::new(t0 + 300 + r.below(500), "close", &[r.below(2) as i64]));
+                let side = r.below(2) as i64;
+                let at = t0 + 300 + r.below(500);
+                p.ops.push(Op::new(at, "close", &[side]));
+                if r.chance(50) {
+                    // the other application closes too, after (or while) the first close_notify arrives
+                    p.ops.push(Op::new(at + r.below(120), "close", &[1 - side]));
+                }
             }
             p.heal_at_ms = 60_000;
         }
